@@ -44,21 +44,26 @@ fn judge_fmt<A: Subject + AllPairs>(ctx: &mut Ctx, case: &Case, wl: &str) {
     let sig = format!("{}", type_class(A::IDX));
     let cs = || Case::new("fmt").with("a", a.enc()).enc();
     ctx.sample(wl, cs);
-    let oracle = model::fmt_oracle(&a.bits, false);
-    match guarded(|| model::fmt_all(&av)) {
+    // the matrix is spread over the cases: each case formats one fifth of it (plus the five plain specs)
+    let of = if ctx.replaying { 1 } else { 5 };
+    let sel = (h % of as u64) as usize;
+    let oracle = model::fmt_full_oracle(&a.bits, sel, of);
+    match guarded(|| crate::fmtgen::fmt_full_sel(&av, sel, of)) {
         Ok(got) => {
-            for (i, (g, o)) in got.iter().zip(oracle.iter()).enumerate() {
+            for ((i, g), (_, o)) in got.iter().zip(oracle.iter()) {
                 if g != o {
+                    let spec = crate::fmtgen::FMT_FULL_SPECS[*i];
                     ctx.violation(
                         "format-differs-from-integer",
-                        &format!("{}|{}", sig, model::FMT_SPECS[i].chars().filter(|c| "boxX".contains(*c)).collect::<String>()),
+                        &format!("{}|{}", sig, spec.chars().filter(|c| "boxX+#".contains(*c)).collect::<String>()),
                         &cs(),
-                        format!("format!(\"{}\", {}) = {:?} ; the same unsigned integer formats as {:?}", model::FMT_SPECS[i], a.describe(), g, o),
+                        format!("format!(\"{}\", {}) = {:?} ; the same unsigned integer formats as {:?}", spec, a.describe(), g, o),
                     );
                     break;
                 }
             }
             ctx.observer_calls += got.len() as u64;
+            ctx.bucket_n("fmt:specs-formatted", got.len() as u64);
         }
         Err(p) => ctx.violation("format-panicked", &sig, &cs(), format!("formatting {} panicked: {}", a.describe(), p.short())),
     }
@@ -122,8 +127,9 @@ fn judge_parse<A: Subject + AllPairs>(ctx: &mut Ctx, case: &Case, wl: &str) {
     let sig = format!("{}|{}", type_class(A::IDX), opn);
     let cs = || case.enc();
     ctx.sample(wl, cs);
-    // byte length vs char count disagree on "fits" only for non-ASCII strings: accept either error there
-    let byte_too_long = A::FIXED_CAP.map_or(false, |c| s.len() * if hex { 4 } else { 1 } > c);
+    if bad.is_some() && !too_long && A::FIXED_CAP.map_or(false, |c| s.len() * if hex { 4 } else { 1 } > c) {
+        ctx.bucket("parse:chars-fit-but-bytes-exceed-capacity");
+    }
     let r = guarded(|| if hex { A::from_hex(&s) } else { A::from_binary(&s) });
     match r {
         Ok(Ok(v)) => match (&bits, too_long) {
@@ -141,7 +147,9 @@ fn judge_parse<A: Subject + AllPairs>(ctx: &mut Ctx, case: &Case, wl: &str) {
             let ok = match (bad, too_long) {
                 (None, false) => false,
                 (None, true) => e == ConvertionError::NotEnoughCapacity,
-                (Some(i), false) => e == ConvertionError::InvalidFormat(i) || (byte_too_long && e == ConvertionError::NotEnoughCapacity),
+                // |s| is the number of characters: a string whose character count fits must name the offending index,
+                // even when its UTF-8 byte length exceeds the capacity
+                (Some(i), false) => e == ConvertionError::InvalidFormat(i),
                 (Some(i), true) => e == ConvertionError::InvalidFormat(i) || e == ConvertionError::NotEnoughCapacity,
             };
             if ok {
@@ -400,6 +408,6 @@ pub fn run(ctx: &mut Ctx) {
 
 pub const REQUIRED_C14: &[&str] = &["fmt:empty-vector", "fmt:zero-value", "fmt:leading-zero-nibbles", "fmt:beyond-u128"];
 pub const REQUIRED_C15: &[&str] = &[
-    "parse:empty-string", "parse:offending-char-in-fitting-string", "parse:non-ascii-offender", "parse:valid-but-too-long",
+    "parse:empty-string", "parse:offending-char-in-fitting-string", "parse:non-ascii-offender", "parse:chars-fit-but-bytes-exceed-capacity", "parse:valid-but-too-long",
     "parse:exactly-capacity", "parse:mixed-case-hex", "parse:leading-zero-digits", "parse(format(v))",
 ];
